@@ -553,6 +553,127 @@ def register(g):
         if any(k != 'remembered' for _, k in out) or len(out) != 4:
             status['behaviour-writes'] = f'assignments to behaviour fields in boss_sync.rs: {out!r}'
 
+    def root_rel():
+        """`impl RootRelativePath` of root_relative_path.rs TRANSLATED: the set of methods, and the bodies of root / is_root / is_inside as
+        `if c { a } else { b }` trees over a table of atoms"""
+        import re as _re
+        src = strip_comments(read('src/root_relative_path.rs'))
+        sq = lambda t: _re.sub(r'\s+', '', t)
+        ATOMS = {'self.inner.is_empty()': '(decide (k = ""))', 'folder.is_root()': '(isRootSrc folder)', '!self.is_root()': '(!(isRootSrc k))', 'self.is_root()': '(isRootSrc k)',
+                 'self.inner.starts_with(&format!("{}/",folder.inner))': '((folder ++ "/").isPrefixOf k)', 'true': 'true', 'false': 'false'}
+        def tr(e):
+            e = e.strip()
+            if e.startswith('{') and e.endswith('}') and balanced(e[1:-1]): return tr(e[1:-1])
+            m = _re.match(r'if(.*?)\{', e)
+            if e.startswith('if') and m:
+                c = m.group(1); i = m.end() - 1; j = match_brace(e, i)
+                rest = e[j + 1:]
+                if not rest.startswith('else'): raise ValueError('if without else: ' + e[:40])
+                return f'(if {atom(c)} then {tr(e[i:j + 1])} else {tr(rest[4:])})'
+            return atom(e)
+        def atom(a):
+            if a not in ATOMS: raise ValueError('expression ' + a[:60])
+            return ATOMS[a]
+        def match_brace(t, i):
+            d = 0
+            for j in range(i, len(t)):
+                d += {'{': 1, '}': -1}.get(t[j], 0)
+                if d == 0: return j
+            raise ValueError('unbalanced')
+        def balanced(t):
+            d = 0
+            for ch in t:
+                d += {'{': 1, '}': -1}.get(ch, 0)
+                if d < 0: return False
+            return d == 0
+        ok = True
+        out = {'is_root': 'false', 'is_inside': 'false'}
+        try:
+            m = _re.search(r'impl\s+RootRelativePath\s*\{', src)
+            if not m: raise ValueError('impl RootRelativePath')
+            end = m.end() - 1; d = 0
+            for j in range(end, len(src)):
+                d += {'{': 1, '}': -1}.get(src[j], 0)
+                if d == 0: break
+            block = src[m.end():j]
+            fns = sorted(_re.findall(r'\bfn\s+(\w+)', block))
+            if fns != sorted(['root', 'is_root', 'is_inside', 'get_full_path', 'regex_set_matches', 'to_platform_path']):
+                raise ValueError('methods of RootRelativePath: %r' % fns)
+            if not _re.search(r'pub\s+struct\s+RootRelativePath\s*\{\s*inner\s*:\s*String\s*,?\s*\}', src): raise ValueError('struct RootRelativePath')
+            if sq(fn_body(block, 'root') or '').strip('{}') != 'RootRelativePath{inner:"".to_string()': raise ValueError('body of root()')
+            if not _re.search(r'pub\s+fn\s+is_root\s*\(\s*&self\s*\)\s*->\s*bool', block) or not _re.search(r'pub\s+fn\s+is_inside\s*\(\s*&self\s*,\s*folder\s*:\s*&RootRelativePath\s*\)\s*->\s*bool', block):
+                raise ValueError('signatures')
+            out['is_root'] = tr(sq(fn_body(block, 'is_root')))
+            out['is_inside'] = tr(sq(fn_body(block, 'is_inside')))
+            if sq(fn_body(block, 'regex_set_matches') or '').strip('{}') != 'r.matches(&self.inner)': raise ValueError('body of regex_set_matches')
+        except Exception as e:
+            ok = False
+            status['root-relative-path'] = f'impl RootRelativePath is outside the translated subset: {e!r}'
+        write('RootRelSrc.lean', 'namespace Rj.Generated\n'
+              f'def rootRelTranslated : Bool := {"true" if ok else "false"}\n'
+              f'/-- `RootRelativePath::is_root`, translated (`k`: the inner string) -/\ndef isRootSrc (k : String) : Bool :=\n  {out["is_root"]}\n'
+              f'/-- `RootRelativePath::is_inside`, translated -/\ndef isInsideSrc (k folder : String) : Bool :=\n  {out["is_inside"]}\nend Rj.Generated\n')
+
+    def confirm_shape():
+        """confirm_actions, copy_entry and copy_file of boss_sync.rs, NORMALISED (comments, white space, `trace!` / `debug!` statements and the text of string
+        literals removed): the model's confirmDeletes / blockedCopies / confirmCopies and its copy loop were written against exactly these shapes; they are
+        pinned in Model/ConfirmShape.lean"""
+        import re as _re
+        src = strip_comments(read('src/boss_sync.rs'))
+        def shape_of(name):
+            body = fn_body(src, name) or ''
+            sig = _re.search(r'fn\s+' + name + r'\s*\(([^)]*)\)\s*->\s*([^{]*)\{', src)
+            # string literals lose their text, except one-word labels (the prompt options "Skip", "Delete", "Overwrite": which answer means what)
+            t = _re.sub(r'"(?:[^"\\]|\\.)*"', lambda m_: m_.group(0) if _re.fullmatch(r'"[A-Z][a-z]{1,11}"', m_.group(0)) else '""', body)
+            # `trace!( ... );` / `debug!( ... );` statements (balanced parentheses)
+            out, i = [], 0
+            while i < len(t):
+                m = _re.compile(r'\b(?:trace|debug)!\s*\(').search(t, i)
+                if not m:
+                    out.append(t[i:]); break
+                out.append(t[i:m.start()]); j, d = m.end(), 1
+                while d and j < len(t):
+                    d += {'(': 1, ')': -1}.get(t[j], 0); j += 1
+                while j < len(t) and t[j] in ' \t\n': j += 1
+                if j < len(t) and t[j] == ';': j += 1
+                i = j
+            shape = _re.sub(r'\s+', '', ''.join(out))
+            shape = (_re.sub(r'\s+', '', sig.group(1)) + '->' + _re.sub(r'\s+', '', sig.group(2)) + shape) if sig else 'NO-SIGNATURE'
+            return [shape[k:k + 100] for k in range(0, len(shape), 100)]
+        text = 'namespace Rj.Generated\n'
+        for name, lean in (('confirm_actions', 'confirmActionsShape'), ('copy_entry', 'copyEntryShape'), ('copy_file', 'copyFileShape')):
+            text += f'/-- `{name}`, normalised (see extract_more.py `confirm_shape`) -/\ndef {lean} : List String := [\n  ' + ',\n  '.join(lean_str(c) for c in shape_of(name)) + ']\n'
+        write('ConfirmShape.lean', text + 'end Rj.Generated\n')
+
+    def delete_cmd():
+        """delete_dest_entry of boss_sync.rs: the command chosen for an entry, TRANSLATED; and where it is sent (destination, only outside a dry run)"""
+        import translate
+        import re as _re
+        src = strip_comments(read('src/boss_sync.rs'))
+        ok = True; e_c = '.deleteFile p'
+        try:
+            if not _re.search(r'fn\s+delete_dest_entry\s*\(\s*ctx\s*:\s*&mut\s+SyncContext\s*,\s*progress\s*:\s*&mut\s+Progress\s*,\s*dest_path\s*:\s*&RootRelativePath\s*,\s*dest_details\s*:\s*&EntryDetails\s*\)', src):
+                raise translate.Unsupported('signature of delete_dest_entry')
+            body = fn_body(src, 'delete_dest_entry')
+            m = _re.search(r'let\s+c\s*=\s*(match\s+dest_details\s*\{)', body)
+            if not m: raise translate.Unsupported('let c = match dest_details')
+            i = m.end(1) - 1; d = 0
+            for j in range(i, len(body)):
+                d += {'{': 1, '}': -1}.get(body[j], 0)
+                if d == 0: break
+            e_c = translate.translate_delete_cmd(body[m.start(1):j + 1], 'dest_path', 'dest_details')
+            rest = _re.sub(r'\s+', '', body[j + 1:])
+            # the command goes to the destination, and only when this is not a dry run; nothing else is sent from here
+            if 'if!ctx.dry_run{ctx.dest_comms.send_command(c)?;}else{' not in rest: raise translate.Unsupported('send of the command')
+            if len(_re.findall(r'send_command', body)) != 1 or 'src_comms' in body: raise translate.Unsupported('other sends in delete_dest_entry')
+        except Exception as e:
+            ok = False
+            status['delete-cmd'] = f'delete_dest_entry is outside the translated subset: {e!r}'
+        write('DeleteCmd.lean', 'import RjModel.Model.Boss\nnamespace Rj.Generated\n'
+              f'def deleteCmdTranslated : Bool := {"true" if ok else "false"}\n'
+              '/-- the command `delete_dest_entry` builds for a destination entry, translated -/\n'
+              f'def deleteCmdSrc (p : String) (d : Details) : Cmd :=\n  {e_c}\nend Rj.Generated\n')
+
     def apply_filters_skel():
         """apply_filters of doer.rs: the early return for the root, the default by the first filter's kind, the assignment loop"""
         import re as _re
@@ -606,4 +727,4 @@ def register(g):
               f'def pathDescDriveGuard : String := {lean_str(guard)}\ndef pathDescSplits : Nat := {n_split}\nend Rj.Generated\n')
 
     g_ = g
-    return {'behaviour_writes': behaviour_writes, 'ordered_map': ordered_map, 'process_entries': process_entries, 'path_desc': path_desc, 'apply_filters_skel': apply_filters_skel, 'decisions': decisions, 'run_skel': run_skel, 'link_socket': link_socket, 'session': session, 'defaults': defaults, 'skeletons': skeletons, 'sites': sites, 'shutdown': shutdown, 'panic_sites': panic_sites, 'walker': walker, 'slash_table': slash_table}
+    return {'delete_cmd': delete_cmd, 'confirm_shape': confirm_shape, 'root_rel': root_rel, 'behaviour_writes': behaviour_writes, 'ordered_map': ordered_map, 'process_entries': process_entries, 'path_desc': path_desc, 'apply_filters_skel': apply_filters_skel, 'decisions': decisions, 'run_skel': run_skel, 'link_socket': link_socket, 'session': session, 'defaults': defaults, 'skeletons': skeletons, 'sites': sites, 'shutdown': shutdown, 'panic_sites': panic_sites, 'walker': walker, 'slash_table': slash_table}
